@@ -7,7 +7,7 @@ from props._cc import has, base_classes, same, outcome
 PROP = 'C07'
 LEVEL = 'exploration'
 RULE = ("cases = (lru/mru/lfu/rr/no x std/safe) x maxsize{1,2,3,5} x purge on/off x archive backend {dict,file pkl/json/src,dir dill/fast/z/json/src,"
-        "sqlite mem/file} x history of calls, bursts, load, dump, keyed load/dump, clear, direct archive writes of correct entries, late archive toggles. "
+        "sqlite mem/file} x history of calls, bursts, load, dump, keyed load/dump, clear, direct archive writes of correct entries, late archive toggles; directory archives also named by a RELATIVE path with the working directory changed during the history. "
         "Oracle per call with archiving on: every key in (resident_before + new) - resident_after is in the archive afterwards with the same value; "
         "archive_after is a superset of archive_before with identical values; every result ever computed and not explicitly cleared is in "
         "resident or archive. non-trivial = an eviction or purge happened with a non-null archive; distinct = (class, purge, backend, "
